@@ -441,7 +441,9 @@ static void library_statics_reset() {
 // ------------------------------------------------------------------ entry
 RunResult run_plan(const Plan &plan, const RunOpts &opts) {
   if (!K) K = new Kernel();
+#if !defined(SIM_COV)  // the coverage counters live in the same sections
   library_statics_reset();
+#endif
   Runner r(plan, opts);
   G = &r;
   r.setup();
